@@ -999,8 +999,10 @@ fn se_vcf(rng: &mut Rng, bgzipped: bool, bad: bool) -> Session {
         real,
         record,
         tail: if bgzipped { vec!["F"] } else { vec![] },
-        // write_variant_record maps every error to io::Error::new(InvalidInput, e); the header call does not
-        wrap_from: Some((1, 1 + nrec)),
+        // write_variant_record used to map every error, the destination's included, to
+        // io::Error::new(InvalidInput, e); since fix c1b7d66 only its own serialization errors are mapped
+        // and the destination's error is returned as it is
+        wrap_from: None,
         drop_after_ok: true,
         has_finish: true,
         post_unmodelled: false,
